@@ -117,6 +117,9 @@ func GenProgram(r *core.Rand, o SemOpts) *Program {
 	lastClash := ""
 	for i := 0; i < nf; i++ {
 		d := dirs[r.Intn(len(dirs))]
+		if len(dirs) == 5 && dirs[1] == "idl/shared_models" && i < 2 {
+			d = dirs[i] // the root file in the directory with the shorter name, its first neighbour in the longer one
+		}
 		base := g.name("m")
 		if o.PkgNameClash && r.Chance(1, 3) {
 			base = []string{"fmt", "wire", "stream", "errors", "strings", "bytes", "base64", "math", "strconv", "zapcore", "multierr", "thriftreflect", "ptr", "json", "binary", "v2", "v3", "v2", "v3"}[r.Intn(19)]
@@ -174,6 +177,7 @@ func GenProgram(r *core.Rand, o SemOpts) *Program {
 		}
 	}
 	_ = siblings
+	pinned := map[*File]bool{}
 	// two different files with one base name in different directories, reached
 	// through different includers on the same level of the include graph
 	if o.IncludeBias && nf >= 5 && !o.ChainMode && r.Chance(1, 3) {
@@ -188,10 +192,10 @@ func GenProgram(r *core.Rand, o SemOpts) *Program {
 		}
 		if free {
 			f[4].Path = np
-			g.include(f[0], f[1])
-			g.include(f[0], f[2])
-			g.include(f[1], f[3])
-			g.include(f[2], f[4])
+			if g.include(f[0], f[1]) && g.include(f[0], f[2]) && g.include(f[1], f[3]) && g.include(f[2], f[4]) {
+				// these two keep exactly the includer they were given
+				pinned[f[3]], pinned[f[4]] = true, true
+			}
 		}
 	}
 	// include graph: every file but the first has an includer with a smaller
@@ -210,8 +214,11 @@ func GenProgram(r *core.Rand, o SemOpts) *Program {
 		}
 	}
 	for j := 1; j < nf && !o.ChainMode; j++ {
-		ok := false
+		ok := pinned[g.p.Files[j]]
 		for _, i := range r.Perm(j) {
+			if ok {
+				break
+			}
 			if g.include(g.p.Files[i], g.p.Files[j]) {
 				ok = true
 				break
@@ -225,7 +232,7 @@ func GenProgram(r *core.Rand, o SemOpts) *Program {
 	}
 	for i := 0; i < nf && !o.ChainMode; i++ {
 		for j := i + 1; j < nf; j++ {
-			if r.Chance(1, 3) {
+			if r.Chance(1, 3) && !pinned[g.p.Files[j]] {
 				g.include(g.p.Files[i], g.p.Files[j])
 			}
 		}
@@ -363,6 +370,9 @@ func GenProgram(r *core.Rand, o SemOpts) *Program {
 	}
 	if o.Defaults && !o.ScalarDefaultsOnly && r.Chance(1, 5) {
 		g.mutualDefaults()
+	}
+	if r.Chance(1, 6) {
+		g.typedefKnot()
 	}
 	if o.Constants && o.ForGen && !o.off("const-refs") {
 		g.constRefs()
@@ -1553,6 +1563,37 @@ func (g *semGen) mutualDefaults() {
 		lit.ItemPos = append(lit.ItemPos, Pos{})
 	}
 	a.Fields = []*Field{fld("peer", ref(b), lit), fld("n", &TypeRef{Kind: TBase, Base: BI32}, nil)}
+}
+
+// typedefKnot plants a chain of three or four typedefs that ends in a struct
+// whose field refers back to the head of the chain, and (where constants are
+// generated) a constant of the head type: whichever definition is linked first,
+// every typedef of the chain must report the struct as its root.
+func (g *semGen) typedefKnot() {
+	r := g.r
+	f := g.p.Files[r.Intn(len(g.p.Files))]
+	g.curFile = f
+	s := &Struct{Kind: KStruct, Name: g.name("St")}
+	g.declare(f, s)
+	n := r.Range(3, 4)
+	prev := &TypeRef{Kind: TNamed, Name: s.Name, Target: s, TFile: f}
+	var head *Typedef
+	for k := 0; k < n; k++ {
+		td := &Typedef{Name: g.name("Td"), Type: prev}
+		g.declare(f, td)
+		prev = &TypeRef{Kind: TNamed, Name: td.Name, Target: td, TFile: f}
+		head = td
+	}
+	s.Fields = []*Field{
+		{ID: 1, IDLit: "1", Req: ReqOptional, Name: g.name("back"), Type: &TypeRef{Kind: TNamed, Name: head.Name, Target: head, TFile: f}},
+		{ID: 2, IDLit: "2", Req: ReqOptional, Name: g.name("n"), Type: &TypeRef{Kind: TBase, Base: BI32}},
+	}
+	if g.o.Constants {
+		v := int64(r.Intn(90))
+		k := &Constant{Name: g.name("kc"), Type: &TypeRef{Kind: TNamed, Name: head.Name, Target: head, TFile: f},
+			Value: &Const{Kind: CMap, Items: []*Const{{Kind: CString, Str: s.Fields[1].Name}, {Kind: CInt, Int: v, Lit: strconv.FormatInt(v, 10)}}, ItemPos: []Pos{{}}}}
+		g.declare(f, k)
+	}
 }
 
 // constRefs adds constants defined as a plain reference to another constant
